@@ -1067,7 +1067,7 @@ def c20(rep, W, rule="C20"):
                         if x[0] == "const" and isinstance(x[2], str) and x[2].lower() == "cache-control" and b.key != cfg.key:
                             bad.append((b.deff, b.line_of_block(bb)))
     rep.ob(rule + ".NOOVERRIDE", ("server", "no-other-cache-control"), not bad, "header insertions naming Cache-Control outside the scope wrapper: %s" % (bad or "none"))
-    rep.floor(rule + ".NOOVERRIDE", "header-insertion sites scanned", n_hdr, 8)
+    rep.floor(rule + ".NOOVERRIDE", "header-insertion sites scanned", n_hdr, 3)
 
 
 # =========================================================================== C18.HANDLERS
@@ -1081,3 +1081,41 @@ def c18_handlers(rep, W, rule="C18.HANDLERS"):
 
 
 S.c18_handlers = c18_handlers
+
+
+# =========================================================================== handler -> operation argument wiring
+def handler_args(rep, W, rule="H-ARGS"):
+    """Each protocol handler hands the operation exactly: the validated client id, the id from the URL path (typed
+    extractor), and -- for writes -- the accumulated request body.  All ids are `Uuid`, so the type checker cannot
+    tell a swapped argument; provenance can."""
+    n = 0
+    for module in WD.HANDLER_MODULES:
+        body = W.handler(module)
+        fn = S.short_fn(body)
+        pv = W.prov(body)
+        ops = S.sites_of(body, WD.op(WD.HANDLER_OP[module]))
+        if len(ops) != 1:
+            rep.fail(rule, (fn, "op-call"), "expected exactly one call of Server::%s" % WD.HANDLER_OP[module], where(body))
+            continue
+        args = pv.arg_terms(ops[0][0])
+        hf = W.handler_fn(module)
+        ptypes = [hf.locals[i]["ty"] for i in range(1, hf.arg_count + 1)]
+        # receiver: the shared server
+        rep.ob(rule, (fn, "receiver"), args[0][0] == "field" and args[0][2] == "server" and args[0][1][0] == "upvar",
+               "operation is invoked on %s (the shared ServerState.server)" % P.show(args[0]), where(body, ops[0][0]), nontrivial=False)
+        if module != "get_snapshot":
+            n += 1
+            t = args[2]
+            okp = t[0] == "call" and t[1] == "actix_web::types::path::Path::<T>::into_inner" and t[3][0][0] == "upvar" and \
+                "actix_web::types::path::Path<uuid::Uuid>" in ptypes and ptypes[t[3][0][1]] == "actix_web::types::path::Path<uuid::Uuid>" \
+                if (t[0] == "call" and t[3] and t[3][0][0] == "upvar" and t[3][0][1] < len(ptypes)) else False
+            rep.ob(rule, (fn, "path-id"), okp,
+                   "version id passed to Server::%s is %s; must be the id extracted from the URL path (web::Path<Uuid>::into_inner)" % (WD.HANDLER_OP[module], P.show(t)[:100]),
+                   where(body, ops[0][0]))
+        if module in ("add_version", "add_snapshot"):
+            acc, why = find_accumulation(W, module)
+            rep.ob(rule, (fn, "payload"), acc is not None,
+                   "payload passed to Server::%s is %s" % (WD.HANDLER_OP[module], "the accumulated request body" if acc is not None else why), where(body, ops[0][0]))
+        rep.ob(rule, (fn, "arity"), len(args) == {"add_version": 4, "add_snapshot": 4, "get_child_version": 3, "get_snapshot": 2}[module],
+               "operation receives %d arguments" % len(args), where(body, ops[0][0]), nontrivial=False)
+    rep.floor(rule, "path-id arguments", n, 3)
